@@ -44,7 +44,11 @@ pub const STEP_BUDGET: u64 = 3_000_000;
 pub fn install_step_budget(budget: u64) -> Rc<Cell<u64>> {
     let steps = Rc::new(Cell::new(0u64));
     let s2 = steps.clone();
-    svgdx::verif::set_callback(Some(Box::new(move |_site| {
+    svgdx::verif::set_callback(Some(Box::new(move |site| {
+        // the logical clock ticks once per element evaluation
+        if !matches!(site, svgdx::verif::Site::ElemEnter) {
+            return;
+        }
         let n = s2.get() + 1;
         s2.set(n);
         if n > budget {
